@@ -278,6 +278,10 @@ def check(ctx):
     # incremental length adjustments anywhere in DiameterMessage use length + padding (shared with C11 clause 4)
     from .c11 import length_arith_all
     length_arith_all(ctx, repo, msg)
+    # the bookkeeping of cleanup() (used by the avps setter) only subtracts the AVPs whose names its key filter selects: it must
+    # select every name append can create (shared with C11)
+    from .c11 import cleanup_names
+    cleanup_names(ctx, repo, msg, ctx.need(repo.cls("bromelia.types.GroupedType"), "GroupedType"))
 
     # ---- 5b accessor agreement (what the bookkeeping adds is what dump() emits) ------------------------------
     ctx.clause = "5b-accessor-agreement"
@@ -292,20 +296,7 @@ def check(ctx):
                    f"{name} returns {rets[0] if rets else None}",
                    f"{ci.name}.{name} returns {rets}: the length used by the bookkeeping is not the big-endian value of the length field",
                    key=name)
-    gp = ctx.need(avp.methods.get("get_padding_length"), "DiameterAVP.get_padding_length")
-    rows = set()
-    for p_ in sym.Interp().run(strip_doc(gp.body)):
-        tv = p_.cond_truth(lambda t: sym.show(t) in ("self.padding", "(self.padding Is None)"))
-        if tv is not None and any(sym.show(c) == "(self.padding Is None)" for c, _ in p_.conds):
-            tv = not tv
-        rows.add((tv, sym.show(p_.value) if p_.term == "return" and p_.value is not None else "None"))
-    okp = (True, "len(self.padding)") in rows and len(rows) == 2
-    tail = [[r[1]] for r in rows if r[0] is False][:1]
-    tail = tail[0] if tail else []
-    ctx.decide(okp and tail in (["None"], ["0"]), "R-SIB/accessor", f"{avp.qual}.get_padding_length", avp.where(gp),
-               "get_padding_length is len(padding) when there is padding, else nothing",
-               "get_padding_length does not return len(self.padding) (None/0 without padding): Message Length bookkeeping and dump() "
-               "disagree on the padding", key="get_padding_length")
+    padding_accessor(ctx, repo, avp)
 
     # ---- 5c flag bits -----------------------------------------------------------------------------------------------
     ctx.clause = "5c-flag-bits"
@@ -612,40 +603,63 @@ def _message_length(ctx, repo, msg):
                        key=f"append:pad{pad}")
     if n_unl == 0:
         ctx.undecided("R-FLOW/append-length", construct, msg.where(ap), "no path for a message that was not decoded", key="loaded")
-    # refresh
+    # refresh, on terms: the total starts from the 20-octet header, one iteration over the listed AVPs adds the AVP's length plus its
+    # padding (nothing when there is none), and the total is what is stored (temporaries and helpers do not matter)
     rf = ctx.need(msg.methods.get("refresh"), "DiameterMessage.refresh")
-    init = sorted([s for s in walk_no_nested(rf) if isinstance(s, ast.Assign) and isinstance(s.targets[0], ast.Name)], key=lambda n: n.lineno)
-    start = repo.fold(msg.mod, init[0].value) if init else None
-    ctx.decide(start == 20, "R-FLOW/refresh", f"{msg.qual}.refresh", msg.where(rf), "refresh starts from the 20-octet header",
-               f"refresh starts the total from {start}, the header is 20 octets", key="refresh_start")
-    loop = next((s for s in walk_no_nested(rf) if isinstance(s, ast.For)), None)
-    ok = False
-    if loop is not None and init:
-        acc = init[0].targets[0].id
-        it = ast.unparse(loop.iter)
-        tv = loop.target.id if isinstance(loop.target, ast.Name) else None
-        src = "\n".join(ast.unparse(s) for s in loop.body)
-        ok = it in ("self.avps", "self._avps") and tv is not None and \
-            (f"len({tv})" in src or f"{tv}.get_length()" in src) and f"{tv}.get_padding_length()" in src
-        for L, P in ((12, None), (13, 3)):
-            def special(e, L=L, P=P, tv=tv):
-                t = ast.unparse(e)
-                if t in (f"len({tv})", f"{tv}.get_length()"):
-                    return L
-                if t == f"{tv}.get_padding_length()":
-                    return P
-                return NotImplemented
-            for env2, term, val in run_paths(list(loop.body), {acc: 20}, special, None):
-                got = env2.get(acc, UNK)
-                ctx.decide(got == 20 + L + (P or 0), "R-FLOW/refresh", f"{msg.qual}.refresh", msg.where(loop),
-                           f"refresh adds length {L} + padding {P}",
-                           f"refresh adds {got - 20 if isinstance(got, int) else got} for an AVP of length {L} and padding {P}",
-                           key=f"refresh:{L}:{P}")
-    ctx.decide(ok, "R-FLOW/refresh", f"{msg.qual}.refresh", msg.where(rf),
+    loop = next((s_ for s_ in walk_no_nested(rf) if isinstance(s_, ast.For)), None)
+    fold_ = lambda e: repo.fold(msg.mod, e)
+    ok_sum = False
+    if loop is not None and isinstance(loop.target, ast.Name):
+        tv = loop.target.id
+        pre = []
+        for st_ in strip_doc(rf.body):
+            if st_ is loop or any(x is loop for x in ast.walk(st_)):
+                break
+            pre.append(st_)
+        pre_paths = [q for q in sym.Interp(fold=fold_).run(pre, sym.PathState({}, [], [])) if q.term == "fall"]
+        env0 = pre_paths[0].env if len(pre_paths) == 1 else {}
+        accs = [k for k, v in env0.items() if sym.is_int(v) and not isinstance(v, bool) and "." not in k
+                and any(isinstance(x, ast.Name) and x.id == k and isinstance(x.ctx, ast.Store) for b_ in loop.body for x in ast.walk(b_))]
+        start = env0.get(accs[0]) if len(accs) == 1 else None
+        ctx.decide(start == 20, "R-FLOW/refresh", f"{msg.qual}.refresh", msg.where(rf), "refresh starts from the 20-octet header",
+                   f"refresh starts the total from {start}, the header is 20 octets", key="refresh_start")
+        if len(accs) == 1:
+            acc = accs[0]
+            A, AV, Lx = sym.S("int:A"), sym.S(tv), sym.S("int:L")
+            PADT = ("call", ("attr", AV, "get_padding_length"), (), ())
+
+            def hk(t):
+                if t in (("call", ("attr", AV, "get_length"), (), ()), ("call", ("name", "len"), (AV,), ())):
+                    return Lx
+                return None
+            it_ok = ast.unparse(loop.iter) in ("self.avps", "self._avps")
+            rows = []
+            for p_ in sym.Interp(fold=fold_, hook=hk).loop_body(loop, {acc: A, tv: AV}):
+                if p_.term not in ("fall", "continue"):
+                    rows.append((None, f"iteration ends with {p_.term}"))
+                    continue
+                padded = [tv_ for c, tv_ in p_.conds if c == PADT or c == ("cmp", "Is", PADT, None) or c == ("cmp", "Gt", PADT, 0)]
+                has_pad = None
+                for c, tv_ in p_.conds:
+                    if c == PADT or c == ("cmp", "Gt", PADT, 0):
+                        has_pad = tv_
+                    elif c == ("cmp", "Is", PADT, None):
+                        has_pad = not tv_
+                delta = sym.add(p_.get(acc), A, -1)
+                want = sym.add(Lx, PADT) if has_pad else Lx
+                good = delta == want or (has_pad is None and delta == sym.add(Lx, PADT))
+                rows.append((has_pad, sym.show(delta)))
+                ctx.decide(good, "R-FLOW/refresh", f"{msg.qual}.refresh", msg.where(loop),
+                           f"refresh adds the AVP length{' + padding' if has_pad else ''}",
+                           f"for an AVP {'with' if has_pad else 'without'} padding refresh adds `{sym.show(delta)}` instead of the AVP length"
+                           f"{' + its padding' if has_pad else ''}", key=f"refresh:{'pad' if has_pad else 'nopad'}")
+            ok_sum = it_ok and bool(rows)
+    ctx.decide(ok_sum, "R-FLOW/refresh", f"{msg.qual}.refresh", msg.where(rf),
                "refresh sums length + padding over every listed AVP", "refresh does not sum length + padding over self.avps",
                key="refresh_sum")
-    st = [s for s in ast.walk(rf) if isinstance(s, ast.Assign) and ast.unparse(s.targets[0]) == "self.header.length"]
-    ctx.decide(bool(st) and init and init[0].targets[0].id in ast.unparse(st[0].value), "R-FLOW/refresh", f"{msg.qual}.refresh",
+    st = [s_ for s_ in ast.walk(rf) if isinstance(s_, ast.Assign) and ast.unparse(s_.targets[0]) == "self.header.length"]
+    ctx.decide(bool(st) and loop is not None and ok_sum and any(isinstance(x, ast.Name) and x.id == acc for x in ast.walk(st[0].value)),
+               "R-FLOW/refresh", f"{msg.qual}.refresh",
                msg.where(rf), "refresh stores the recomputed total", "refresh does not store the recomputed total", key="refresh_store",
                nontrivial=False)
     # dump
@@ -767,3 +781,21 @@ def _grouped(ctx, repo):
         s2 = ast.unparse(ex)
         ctx.decide("self.append(" in s2 and "for " in s2, "R-MUSTPASS/grouped-ctor", f"{g.qual}.extend", g.where(ex),
                    "extend appends each member in order", "extend does not append each member", key="extend", nontrivial=False)
+
+
+def padding_accessor(ctx, repo, avp):
+    """get_padding_length() - what refresh/append/pop add to the Message Length - is len(self.padding), what dump() emits"""
+    gp = ctx.need(avp.methods.get("get_padding_length"), "DiameterAVP.get_padding_length")
+    rows = set()
+    for p_ in sym.Interp().run(strip_doc(gp.body)):
+        tv = p_.cond_truth(lambda t: sym.show(t) in ("self.padding", "(self.padding Is None)"))
+        if tv is not None and any(sym.show(c) == "(self.padding Is None)" for c, _ in p_.conds):
+            tv = not tv
+        rows.add((tv, sym.show(p_.value) if p_.term == "return" and p_.value is not None else "None"))
+    okp = (True, "len(self.padding)") in rows and len(rows) == 2
+    tail = [[r[1]] for r in rows if r[0] is False][:1]
+    tail = tail[0] if tail else []
+    ctx.decide(okp and tail in (["None"], ["0"]), "R-SIB/accessor", f"{avp.qual}.get_padding_length", avp.where(gp),
+               "get_padding_length is len(padding) when there is padding, else nothing",
+               "get_padding_length does not return len(self.padding) (None/0 without padding): Message Length bookkeeping and dump() "
+               "disagree on the padding", key="get_padding_length")
